@@ -112,6 +112,12 @@ def _rv_bits(body, rv, depth, seen):
         if base == "Mul":
             return min(W, ba + bb)
         if base == "Div":
+            # dividing by a constant c >= 2^k removes k bits
+            if b[0] == "k":
+                cb = const_bits(b[1])
+                v = b[1].get("v")
+                if isinstance(v, int) and not isinstance(v, bool) and v > 0 and cb >= 2:
+                    return min(W, max(2, ba - (cb - 2)))
             return min(W, ba + 1)
         if base == "Rem":
             return min(W, ba, bb)
